@@ -15,7 +15,7 @@ REQUIRED = ["CifModel.C19_list_is_sequence", "CifModel.C19_table_is_map", "CifMo
             # operation histories (group gM, Props/C19Hist.lean)
             "CifModel.C19_history_heap", "CifModel.C19_history_owned", "CifModel.C19_history_release", "CifModel.C19_history_trace",
             "CifModel.C19_step_heap", "CifModel.C19_clone_onto_member_heap", "CifModel.C19_list_history",
-            "CifModel.C19_nested_update_exact", "CifModel.C19_nested_putP_exact", "CifModel.C19_refs_distinct"]
+            "CifModel.C19_nested_update_exact", "CifModel.C19_nested_putP_exact", "CifModel.C19_refs_distinct", "CifModel.C19_history_get"]
 GEN = ["ErrCodes", "ValueCols"]
 FAMILIES = ["val", "valheap"]
 TRUSTED_BASE = [
@@ -55,8 +55,7 @@ PARTIAL = [
     "pure one; C19_refs_distinct proves the two agree (different references designate different blocks). What the history theorems do "
     "NOT say: (iii) cif_packet_create with two "
     "names for one item leaves the model state as it was (the blocks it allocated and released again are not recorded; "
-    "C16_packet_create_heap_safe proves they are all released); (iv) the observations lget / mget return are not part of the "
-    "history theorem (C19_members_by_reference states them for one operation); (v) allocation failures (C17) and "
+    "C16_packet_create_heap_safe proves they are all released); (iv) allocation failures (C17) and "
     "convert_to_standalone (unreachable) are outside the op language",
     "failure paths of the re-initialisers (cif_value_parse_numb / copy_char on invalid input leave the object as it was) are "
     "modelled at pure level only (Model/Numb, C10); reinitH / Hist.buildOntoAt model the successful path",
